@@ -229,8 +229,15 @@ pub fn run_history(h: &History, rep: &mut Report, extra: &mut Vec<(String, Strin
                     imp.push(format!("{}:{}:0", hex(&cbytes), cs));
                 }
                 Call::SetParam(k, v) => { nontrivial = true; set_param(st, &mut twin, *k, *v, &format!("as call #{}", ci), rep, &mut plines); }
-                Call::HasMore => { let a = c::BrotliEncoderHasMoreOutput(st); let b = twin.has_more_output(); if (a != 0) != b { rep.violation("ffi:has-more-differs", &format!("call #{}", ci), case.clone()); } }
-                Call::IsFinished => { let a = c::BrotliEncoderIsFinished(st); let b = twin.is_finished(); if (a != 0) != b { rep.violation("ffi:is-finished-differs", &format!("call #{}", ci), case.clone()); } }
+                Call::HasMore | Call::IsFinished => {
+                    // both read-only entry points on the same state; model line `ffi Q` gets the two fields they read
+                    let (ss, av) = ((*st).compressor.stream_state_ as i32, (*st).compressor.available_out_);
+                    let a = c::BrotliEncoderHasMoreOutput(st); let b = twin.has_more_output(); if (a != 0) != b { rep.violation("ffi:has-more-differs", &format!("call #{}", ci), case.clone()); }
+                    let f = c::BrotliEncoderIsFinished(st); let g = twin.is_finished(); if (f != 0) != g { rep.violation("ffi:is-finished-differs", &format!("call #{}", ci), case.clone()); }
+                    if ((*st).compressor.stream_state_ as i32, (*st).compressor.available_out_) != (ss, av) { rep.violation("ffi:query-changed-state", &format!("call #{}: HasMoreOutput / IsFinished changed stream_state_ or available_out_", ci), case.clone()); }
+                    rep.count("query_calls");
+                    plines.push((format!("ffi Q {} {}", ss, av.min(4096)), format!("{}:{}", f, a)));
+                }
             }
         }
         let fin = c::BrotliEncoderIsFinished(st) != 0;
@@ -352,7 +359,7 @@ impl SliceWrapper<u8> for OwnedVec { fn slice(&self) -> &[u8] { &self.0 } }
 fn cmode(mode: u32) -> c::BrotliEncoderMode { match mode { 0 => c::BrotliEncoderMode::BROTLI_MODE_GENERIC, 1 => c::BrotliEncoderMode::BROTLI_MODE_TEXT, _ => c::BrotliEncoderMode::BROTLI_MODE_FONT } }
 fn rmode(mode: u32) -> brotli::enc::backward_references::BrotliEncoderMode { use brotli::enc::backward_references::BrotliEncoderMode as M; match mode { 0 => M::BROTLI_MODE_GENERIC, 1 => M::BROTLI_MODE_TEXT, _ => M::BROTLI_MODE_FONT } }
 
-fn oneshot_case(rng: &mut Rng, rep: &mut Report) {
+fn oneshot_case(rng: &mut Rng, rep: &mut Report, corr: &mut Vec<(String, String)>) {
     let q = *rng.pick(&[0i32, 1, 2, 5, 9, 10, 11]); let lgwin = rng.range(10, 20) as i32; let mode = rng.below(3) as u32;
     let n = *rng.pick(&[0usize, 1, 2, 100, 3000]); let data = gen_data(rng, n);
     let maxsz = brotli::enc::BrotliEncoderMaxCompressedSize(n);
@@ -366,6 +373,23 @@ fn oneshot_case(rng: &mut Rng, rep: &mut Report) {
         let mut rout = vec![0u8; cap]; let mut rsz = cap;
         let mut m8 = StandardAlloc::default();
         let rres = std::panic::catch_unwind(std::panic::AssertUnwindSafe(|| brotli::enc::encode::BrotliEncoderCompress(StandardAlloc::default(), &mut m8, q, lgwin, rmode(mode), n, &data, &mut rsz, &mut rout, &mut |_a, _b, _c, _d| ())));
+        // model line `ffi C`: the wrapper over `encoder_compress`, given the outcome of the stream phase re-run on a
+        // twin encoder with the parameters encoder_compress sets (quality 10 runs as 9 with the q9.5 hasher: no twin)
+        if q != 10 && n <= 3000 && cap <= 4000 {
+            let mut e = BrotliEncoderStateStruct::new(StandardAlloc::default());
+            e.set_parameter(P::BROTLI_PARAM_QUALITY, q as u32); e.set_parameter(P::BROTLI_PARAM_LGWIN, lgwin as u32); e.set_parameter(P::BROTLI_PARAM_MODE, mode);
+            e.set_parameter(P::BROTLI_PARAM_SIZE_HINT, n as u32); if lgwin > 24 { e.set_parameter(P::BROTLI_PARAM_LARGE_WINDOW, 1); }
+            let mut so_out = vec![0u8; cap]; let (mut ai, mut io_, mut ao, mut oo) = (n, 0usize, cap, 0usize); let mut to = Some(0usize);
+            let so = std::panic::catch_unwind(std::panic::AssertUnwindSafe(|| { let r = if cap != 0 && n != 0 { e.compress_stream(ROp::BROTLI_OPERATION_FINISH, &mut ai, &data, &mut io_, &mut ao, &mut so_out, &mut oo, &mut to, &mut |_a, _b, _c, _d| ()) } else { false }; (r, e.is_finished()) }));
+            if let Ok((sr, sf)) = so {
+                let tot = to.unwrap_or(0);
+                let got = if ret != 0 { &cout[..csz.min(cout.len())] } else { &cout[..0] };
+                let fnv = got.iter().fold(FNV_INIT, |h, b| fnv_step(h, *b as u64));
+                corr.push((format!("ffi C {} {} {} {} {} {} {} {} {}", n, null_in as u8, cap, null_out as u8, sr as u8, sf as u8, tot, hex(&so_out[..oo]), hex(&data)),
+                           format!("{}:{}:{}:{}:0", ret, csz, got.len(), fnv)));
+                rep.count("oneshot_calls.model_line");
+            }
+        }
         match rres {
             Ok(rret) => {
                 if ret != rret { rep.violation("ffi:oneshot:return-differs", &format!("C ABI returned {} but the Rust API {}", ret, rret), case.clone()); }
@@ -513,6 +537,36 @@ fn grid_case(idx: u64, seed: u64, rep: &mut Report) {
     } }
 }
 
+/// the small exported functions, one model line each: Version, MaxCompressedSize (edge arguments incl. the
+/// wrap-to-0 zone; release build: the last addition is unchecked), SetCustomDictionary on a fresh instance
+/// (first use; empty dictionary or quality 0/1 switch catable/appendable on), NULL dictionary with size 0.
+fn entry_lines(rep: &mut Report, corr: &mut Corr) {
+    corr.case("ffi V", &c::BrotliEncoderVersion().to_string());
+    if c::BrotliEncoderVersion() != brotli::enc::encode::BrotliEncoderVersion() { rep.violation("ffi:version-differs", "BrotliEncoderVersion differs from the Rust function", "{}".into()); }
+    let mut ns: Vec<usize> = vec![0, 1, 2, 100, (1 << 14) - 1, 1 << 14, (1 << 14) + 1, (1 << 20), (1 << 20) + 1, (1 << 24) - 1, 1 << 24, (1 << 24) + 1, (1 << 24) + (1 << 20) + 1, 1 << 32, (1 << 54) - 1, 1 << 54, usize::MAX >> 1, usize::MAX - (1 << 52), 18442241573325438940, 18442241573325438941, usize::MAX - 17, usize::MAX - 1, usize::MAX];
+    for k in 0..40u64 { ns.push((k.wrapping_mul(0x9E3779B97F4A7C15) >> (k % 50)) as usize); }
+    for n in ns {
+        let v = c::BrotliEncoderMaxCompressedSize(n);
+        rep.count("max_compressed_size_calls");
+        if v != brotli::enc::BrotliEncoderMaxCompressedSize(n) { rep.violation("ffi:max-compressed-size-differs", &format!("n = {}", n), "{}".into()); }
+        corr.case(&format!("ffi X {}", n), &v.to_string());
+    }
+    unsafe {
+        let buf = vec![7u8; 70000];
+        for q in [0u32, 1, 2, 5, 9, 11] { for lgwin in [10u32, 16, 22] { for (size, null) in [(0usize, true), (0, false), (1, false), (2, false), (300, false), (70000, false)] {
+            let st = c::BrotliEncoderCreateInstance(None, None, core::ptr::null_mut());
+            c::BrotliEncoderSetParameter(st, P::BROTLI_PARAM_QUALITY, q); c::BrotliEncoderSetParameter(st, P::BROTLI_PARAM_LGWIN, lgwin);
+            let (ip0, lf0) = ((*st).compressor.input_pos_, (*st).compressor.last_flush_pos_);
+            c::BrotliEncoderSetCustomDictionary(st, size, if null { core::ptr::null() } else { buf.as_ptr() });
+            let e = &(*st).compressor;
+            let copied = e.input_pos_ != ip0 || e.last_flush_pos_ != lf0;
+            rep.count("set_custom_dictionary.entry_lines");
+            corr.case(&format!("ffi D {} {} {}", q, lgwin, size), &format!("{}:{}:{}:{}:{}:{}", e.is_initialized_ as u8, e.params.catable as u8, e.params.appendable as u8, e.params.quality, e.params.lgwin, copied as u8));
+            c::BrotliEncoderDestroyInstance(st);
+        } } }
+    }
+}
+
 /// contract violations that must come back as return values, never as an abort.
 /// (A NULL pointer together with a NON-zero count is outside the documented contract — the wrappers
 /// hand it to `slice::from_raw_parts`, as the C library would dereference it; pointer validity is
@@ -613,7 +667,9 @@ fn run_shard(args: &Args, shard: u64, nshards: u64) {
     for (o, a) in extra.drain(..) { corr.case(&o, &a); }
     if c20 { std::fs::write(args.out.join("current.txt"), "").ok(); corr.finish(); rep.write(&args.out); return; }
     let n1: u64 = if thorough { 4000 } else { 400 };
-    for i in (0..n1).filter(|i| i % nshards == shard) { let mut rng = Rng::new(args.seed ^ 0x0115 ^ (i << 20)); std::fs::write(args.out.join("current.txt"), format!("{{\"oneshot_index\":{}}}", i)).ok(); oneshot_case(&mut rng, &mut rep); }
+    let mut lines1: Vec<(String, String)> = vec![];
+    for i in (0..n1).filter(|i| i % nshards == shard) { let mut rng = Rng::new(args.seed ^ 0x0115 ^ (i << 20)); std::fs::write(args.out.join("current.txt"), format!("{{\"oneshot_index\":{}}}", i)).ok(); oneshot_case(&mut rng, &mut rep, &mut lines1); }
+    for (o, a) in lines1 { if o.len() < 60000 { corr.case(&o, &a); } }
     // every desired thread count 0..32, several inputs each
     let reps: u64 = if thorough { 12 } else { 2 };
     let mut lines = vec![];
@@ -624,6 +680,8 @@ fn run_shard(args: &Args, shard: u64, nshards: u64) {
     for g in (0..ngrid).filter(|g| g % nshards == shard) { std::fs::write(args.out.join("current.txt"), format!("{{\"grid_index\":{}}}", g)).ok(); grid_case(g, args.seed.wrapping_add(g / 252), &mut rep); }
     if shard == 0 {
         for d in 0..=40usize { corr.case(&format!("ffi M {}", d), &(if d == 0 { "reject".to_string() } else if d.min(16) == 1 { "single".into() } else { format!("multi:{}", d.min(16)) })); }
+        std::fs::write(args.out.join("current.txt"), "{\"entry_lines\":true}").ok();
+        entry_lines(&mut rep, &mut corr);
         std::fs::write(args.out.join("current.txt"), "{\"risky\":true}").ok();
         risky_cases(&mut rep);
     }
